@@ -66,7 +66,10 @@ func (gen *generator) indexTopLevelEntities(old *ast.Module) error {
 			gen.old.globals[ident] = entity
 			gen.old.globalOrder = append(gen.old.globalOrder, ident)
 		case *ast.AttrGroupDef:
-			id := attrGroupID(entity.ID())
+			id, err := attrGroupID(entity.ID())
+			if err != nil {
+				return errors.WithStack(err)
+			}
 			// Append attribute group definition, and merge at later stage if ID
 			// maps to more than one attribute group definition.
 			gen.old.attrGroupDefs[id] = append(gen.old.attrGroupDefs[id], entity)
@@ -77,7 +80,10 @@ func (gen *generator) indexTopLevelEntities(old *ast.Module) error {
 			// nodes of each definition appended.
 			gen.old.namedMetadataDefs[name] = append(gen.old.namedMetadataDefs[name], entity)
 		case *ast.MetadataDef:
-			id := metadataID(entity.ID())
+			id, err := metadataID(entity.ID())
+			if err != nil {
+				return errors.WithStack(err)
+			}
 			if prev, ok := gen.old.metadataDefs[id]; ok {
 				return errors.Errorf("metadata ID %q already present; prev `%s`, new `%s`", enc.MetadataID(id), text(prev), text(entity))
 			}
